@@ -60,6 +60,7 @@ type ExplicitRun struct {
 	Trace  *simrt.Trace `json:"trace,omitempty"`
 	Est    int64        `json:"est"`
 	Note   string       `json:"note,omitempty"`
+	Share  bool         `json:"share_inputs,omitempty"` // calls asking the same input get the very same string value
 }
 
 // Violation as reported by a worker.
@@ -312,7 +313,7 @@ func (w *worker) runSession() {
 }
 
 func specFromExplicit(er *ExplicitRun) (*simrt.RunSpec, [][]string, error) {
-	spec := &simrt.RunSpec{Seed: er.Seed, Policy: er.Policy, Trace: er.Trace, Est: er.Est}
+	spec := &simrt.RunSpec{Seed: er.Seed, Policy: er.Policy, Trace: er.Trace, Est: er.Est, ShareInputs: er.Share}
 	if spec.Policy.Kind == "explicit" && spec.Trace == nil {
 		spec.Trace = &simrt.Trace{}
 	}
@@ -341,7 +342,7 @@ func specFromExplicit(er *ExplicitRun) (*simrt.RunSpec, [][]string, error) {
 }
 
 func (w *worker) explicitOf(spec *simrt.RunSpec, res *simrt.RunResult, exp [][]string) *ExplicitRun {
-	er := &ExplicitRun{Seed: spec.Seed, Est: spec.Est, Policy: simrt.Policy{Kind: "explicit"}}
+	er := &ExplicitRun{Seed: spec.Seed, Est: spec.Est, Policy: simrt.Policy{Kind: "explicit"}, Share: spec.ShareInputs}
 	tr := res.Trace
 	er.Trace = &tr
 	er.Note = fmt.Sprintf("recorded from policy %+v", spec.Policy)
@@ -598,7 +599,8 @@ func (w *worker) modePairs() {
 			est += w.c.Steps[0][i] + w.c.Steps[1][i]
 		}
 		c2 := append([]simrt.Call(nil), calls...)
-		spec := &simrt.RunSpec{Seed: uint64(a), Tasks: [][]simrt.Call{calls, c2}, Policy: simrt.Policy{Kind: "seq", PoolMode: "lifo"}, Est: 2*est + 64}
+		// every other batch: both tasks pass the very same string values
+		spec := &simrt.RunSpec{Seed: uint64(a), Tasks: [][]simrt.Call{calls, c2}, Policy: simrt.Policy{Kind: "seq", PoolMode: "lifo"}, Est: 2*est + 64, ShareInputs: (a/batch)%2 == 1}
 		w.execRun(spec, nil, a == w.ses.From)
 	}
 }
@@ -1053,11 +1055,11 @@ func (w *worker) modeHugeFirst() {
 	}
 }
 
-// OverlapList: the inputs of the self-overlap sweep: long inputs, probes.
+// OverlapList: the inputs of the self-overlap sweep: long inputs, probes, unusual byte classes.
 func OverlapList(c *common.Corpus) []int32 {
 	var out []int32
 	for i, f := range c.Flags {
-		if (f&common.FLong != 0 && f&common.FHuge == 0) || f&common.FProbe != 0 {
+		if (f&common.FLong != 0 && f&common.FHuge == 0) || f&(common.FProbe|common.FOdd) != 0 {
 			out = append(out, int32(i))
 		}
 	}
@@ -1082,7 +1084,7 @@ func (w *worker) modeOverlap() {
 				break
 			}
 			c := simrt.Call{API: api, Idx: x, Input: w.c.In[x]}
-			spec := &simrt.RunSpec{Seed: uint64(k)*32 + uint64(d), Tasks: [][]simrt.Call{{c}, {c}}, Policy: simrt.Policy{Kind: "overlap", Depth: d, PoolMode: "lifo"}, Est: 2*w.c.Steps[api][x] + 64}
+			spec := &simrt.RunSpec{Seed: uint64(k)*32 + uint64(d), Tasks: [][]simrt.Call{{c}, {c}}, Policy: simrt.Policy{Kind: "overlap", Depth: d, PoolMode: "lifo"}, Est: 2*w.c.Steps[api][x] + 64, ShareInputs: (k/2)%2 == 1}
 			res := w.execRun(spec, nil, false)
 			if res == nil || !res.Parked {
 				break
